@@ -89,7 +89,9 @@ def put_license_in_file(
     destination = Path(destination)
     destination.parent.mkdir(exist_ok=True)
 
-    if destination.exists():
+    # A symlink counts as existing even if its target does not: it must not be
+    # written through.
+    if destination.exists() or destination.is_symlink():
         raise FileExistsError(
             errno.EEXIST, os.strerror(errno.EEXIST), str(destination)
         )
